@@ -52,4 +52,14 @@ MUTANTS = [
     m("alph-size-7-accepted", ["C12"], CX, "if alphabetSize not in [2, 3, 4, 5, 6, 8, 10, 11, 12, 15, 18, 20]:", "if alphabetSize not in [2, 3, 4, 5, 6, 7, 8, 10, 11, 12, 15, 18, 20]:"),
     m("alph8-H-rep-K", ["C12"], CX, "                elif x in ('H'):\n                    aa.append('H')", "                elif x in ('H'):\n                    aa.append('K')"),
     m("alph11-returned-alphabet-Q-to-N", ["C12"], CX, "eleven = ['L', 'C', 'A', 'G', 'S', 'P', 'F', 'E', 'K', 'H', 'Q']", "eleven = ['L', 'C', 'A', 'G', 'S', 'P', 'F', 'E', 'K', 'H', 'N']"),
+    # ---- C13
+    m("validate-keeps-whitespace", ["C13"], SEQ, "                        messageWarned = True\n                    pass", "                        messageWarned = True\n                    processed = processed + i"),
+    m("validate-X-whitelisted", ["C13"], SEQ, "                # if unexpected residue/character bail\n                else:", "                elif i == 'X':\n                    processed = processed + 'G'\n                # if unexpected residue/character bail\n                else:"),
+    m("len-from-raw-string", ["C13"], SEQ, "        # by default don't validate\n        if validateSeq:\n            seq = seq.upper()\n            seq = self.validateSequence(seq)\n\n        self.seq = seq.upper()\n        self.len = len(seq)", "        # by default don't validate\n        rawlen = len(seq)\n        if validateSeq:\n            seq = seq.upper()\n            seq = self.validateSequence(seq)\n\n        self.seq = seq.upper()\n        self.len = rawlen"),
+    m("validate-no-upper", ["C13"], SEQ, "        if validateSeq:\n            seq = seq.upper()\n            seq = self.validateSequence(seq)", "        if validateSeq:\n            seq = self.validateSequence(seq)"),
+    m("validate-digits-skipped", ["C13"], SEQ, "                if i.isspace():", "                if i.isspace() or i.isdigit():"),
+    m("validate-only-ascii-space", ["C13"], SEQ, "                if i.isspace():", "                if i in ' \\t\\n\\r':"),
+    m("empty-check-gone", ["C13"], SEQ, "        prolineContent = float(processed.count(\"P\")) / float(len(processed))", "        prolineContent = float(processed.count(\"P\")) / float(max(1, len(processed)))"),
+    m("validate-first-char-unchecked", ["C13"], SEQ, "            if i not in AAs:\n\n                # if we find whitespace", "            if i not in AAs and pos > 1 and (pos < 9 or not i.islower()):\n                pass\n            if i not in AAs and pos > 1:\n\n                # if we find whitespace",
+      note="only the first character escapes validation"),
 ]
